@@ -436,6 +436,76 @@ fn near_collision_groups() -> Vec<Vec<V>> {
     groups
 }
 
+/// many distinct constants in one store (a table that stops recording after some number of entries, or evicts,
+/// only shows beyond it): add `n` distinct constants with other tables growing in between, then add each again
+fn run_interning_volume(n: usize, r: &mut Rng, acc: &mut Acc) {
+    let mut d = Simple::fresh();
+    let strict_same = |x: &V, y: &V| x == y && std::mem::discriminant(x) == std::mem::discriminant(y);
+    let values: Vec<V> = (0..n)
+        .map(|i| match i % 5 {
+            0 => V::Int(i as i32 * 7 + 1),
+            1 => V::Float(i as f64 + 0.5),
+            2 => V::CharList(format!("text{}", i)),
+            3 => V::Sym(0x1000_0000 + i as u64 * 0x9E37),
+            _ => V::ByteList(vec![(i % 251) as u8, (i / 251 % 251) as u8, (i / 63001) as u8]),
+        })
+        .collect();
+    let mut addrs: Vec<usize> = vec![];
+    for (i, v) in values.iter().enumerate() {
+        acc.evals += 1;
+        match construct(&mut d, v) {
+            Ok(a) => addrs.push(a),
+            Err(e) => {
+                acc.violation(format!("op-failed|intern-volume|simple|{}", crate::pool::tname(v.type_of())), format!("adding constant #{} ({}) failed: {}", i, v.show(), e), Json::obj().with("count", Json::i(i as i64)));
+                return;
+            }
+        }
+        if r.chance(1, 7) {
+            let _ = d.push_instruction(garnish_lang_traits::Instruction::Put, Some(addrs[r.below(addrs.len())]));
+            let _ = d.push_to_jump_table(i);
+        }
+    }
+    let mut uniq = std::collections::HashSet::new();
+    for (i, a) in addrs.iter().enumerate() {
+        if !uniq.insert(*a) {
+            acc.violation(format!("aliased|intern-volume|simple|{}", crate::pool::tname(values[i].type_of())), format!("[simple] constant #{} {} was given an address already used by another of the {} distinct constants", i, values[i].show(), n), Json::obj().with("count", Json::i(n as i64)));
+            return;
+        }
+    }
+    let mut order: Vec<usize> = (0..n).collect();
+    for k in (1..n).rev() {
+        let m = r.below(k + 1);
+        order.swap(k, m);
+    }
+    for i in order {
+        acc.evals += 1;
+        match construct(&mut d, &values[i]) {
+            Ok(a) if a == addrs[i] => {}
+            Ok(a) => {
+                acc.violation(
+                    format!("not-interned|intern-volume|simple|{}", crate::pool::tname(values[i].type_of())),
+                    format!("[simple] with {} distinct constants in the store, adding constant #{} {} again returned {} (first time {})", n, i, values[i].show(), a, addrs[i]),
+                    Json::obj().with("count", Json::i(n as i64)).with("index", Json::i(i as i64)),
+                );
+                return;
+            }
+            Err(e) => {
+                acc.violation(format!("op-failed|intern-volume|simple|{}", crate::pool::tname(values[i].type_of())), format!("re-adding constant #{} failed: {}", i, e), Json::obj());
+                return;
+            }
+        }
+        match readback(&d, addrs[i]) {
+            Ok(x) if strict_same(&x, &values[i]) => {}
+            other => {
+                acc.violation(format!("readback-changed|intern-volume|simple|{}", crate::pool::tname(values[i].type_of())), format!("[simple] constant #{} {} reads back {:?} once {} constants are stored", i, values[i].show(), other.map(|x| x.show()), n), Json::obj());
+                return;
+            }
+        }
+    }
+    acc.count("interning_volume_runs");
+    acc.max("interning_volume_constants", n as u64);
+}
+
 fn run_interning_pool(pool: &[V], seq: &[usize], acc: &mut Acc) {
     let mut d = Simple::fresh();
     let mut seen: Vec<(V, usize)> = vec![];
@@ -524,7 +594,16 @@ pub fn run(ctx: &Ctx) -> (Acc, String, bool) {
     let long_total: u64 = ctx.pick(24, 96);
     let long_ops: usize = ctx.pick(1500, 6_000);
     let seed = ctx.seed;
-    let acc = run_cases(ctx, total_h + intern_total + group_total + long_total, |i, acc| {
+    let volume_total: u64 = ctx.pick(4, 16);
+    let volume_n: usize = ctx.pick(3_000, 40_000);
+    let acc = run_cases(ctx, total_h + intern_total + group_total + long_total + volume_total, |i, acc| {
+        if i >= total_h + intern_total + group_total + long_total {
+            let mut r = Rng::for_case(seed, i);
+            let n = volume_n / 2 + r.below(volume_n / 2 + 1);
+            run_interning_volume(n, &mut r, acc);
+            acc.nontrivial += 1;
+            return;
+        }
         if i < total_h {
             let (l, off, _) = per_len.iter().rev().find(|(_, off, _)| *off <= i).cloned().unwrap();
             let mut code = i - off;
@@ -601,13 +680,14 @@ pub fn run(ctx: &Ctx) -> (Acc, String, bool) {
         }
     });
     let rule = format!(
-        "exhaustive: every history of length 1..{} over 9 operation kinds (add number / text|bytes / named symbol / pair|list of earlier values; push instruction; push+patch jump entry; push/pop register; push/pop value; push/pop frame) = {} histories, each on SimpleGarnishData and on BasicGarnishData with initial block sizes 0,1,2 x growth +1,+2,x2(from non-zero) plus default ({} configurations), full read-back sweep of every table + structural invariant (verif hooks) after EVERY operation; Simple interning: every sequence of length {} over {} constants incl. hash-stream alias pairs (Float 1.5 / Integer -13291983 ...) = {}; near-collision interning groups (text / byte lists of 20 lengths from 1 to 4096 that agree in length and all but one position, close floats, integers, symbols) added in random orders with repetitions; random: {} histories of {} operations (rolling + periodic full sweeps). distinct_nontrivial counts exhaustive histories in which the data table grew, interning sequences, and distinct random histories.",
+        "exhaustive: every history of length 1..{} over 9 operation kinds (add number / text|bytes / named symbol / pair|list of earlier values; push instruction; push+patch jump entry; push/pop register; push/pop value; push/pop frame) = {} histories, each on SimpleGarnishData and on BasicGarnishData with initial block sizes 0,1,2 x growth +1,+2,x2(from non-zero) plus default ({} configurations), full read-back sweep of every table + structural invariant (verif hooks) after EVERY operation; Simple interning: every sequence of length {} over {} constants incl. hash-stream alias pairs (Float 1.5 / Integer -13291983 ...) = {}; near-collision interning groups (text / byte lists of 20 lengths from 1 to 4096 that agree in length and all but one position, close floats, integers, symbols) added in random orders with repetitions; interning volume: stores holding up to {} distinct constants of five kinds, each added a second time in random order; random: {} histories of {} operations (rolling + periodic full sweeps). distinct_nontrivial counts exhaustive histories in which the data table grew, interning sequences, and distinct random histories.",
         len,
         total_h,
         cfgs.len(),
         ilen,
         npool,
         intern_total,
+        volume_n,
         long_total,
         long_ops
     );
